@@ -10,6 +10,7 @@
 -/
 import GeoModel.Simplify
 import GeoProofs.Lemmas.C09Rdp
+import GeoProofs.Lemmas.C09Vw
 import Mathlib.Tactic.NormNum
 
 namespace Geo.Proofs.C09
@@ -149,5 +150,149 @@ theorem rdp_single_pinned_witness (x : RI) :
   constructor
   · simp [computeRdpPinnedSingle]
   · simp [computeRdp]
+
+/-! ### Visvalingam-Whyatt -/
+
+/-- [T] `simplify_vw(ε)` and `simplify_vw_idx(ε)` with `ε ≤ 0` are the identity. -/
+theorem vw_eps_nonpos (cs : List Pt) (eps : Rat) (h : eps ≤ 0) :
+    visvalingam cs eps = cs ∧ simplifyVwIdx cs eps = List.range cs.length := by
+  simp [visvalingam, simplifyVwIdx, h]
+
+/-- [T] `simplify_vw_idx` lists exactly the positions of the vertices `simplify_vw` keeps
+(an increasing list of valid positions whose look-up is the coordinate output). -/
+theorem vw_idx_coords (cs : List Pt) (eps : Rat) :
+    (simplifyVwIdx cs eps).Sublist (List.range cs.length) ∧
+    visvalingam cs eps = (simplifyVwIdx cs eps).filterMap (fun i => cs[i]?) := by
+  by_cases h : eps ≤ 0
+  · have ⟨h1, h2⟩ := vw_eps_nonpos cs eps h
+    rw [h1, h2]
+    refine ⟨List.Sublist.refl _, ?_⟩
+    rw [filterMap_idx cs _ (List.Sublist.refl _), range_map_coordAt]
+  · have hs : simplifyVwIdx cs eps = visvalingamIndices cs eps := by simp [simplifyVwIdx, h]
+    rw [hs]
+    refine ⟨visIdx_sublist cs eps, ?_⟩
+    rw [filterMap_idx cs _ (visIdx_sublist cs eps), vis_eq cs eps h]
+
+/-- [T] the output of `simplify_vw` is a subsequence of the input vertices. -/
+theorem vw_sublist (cs : List Pt) (eps : Rat) : (visvalingam cs eps).Sublist cs := by
+  by_cases h : eps ≤ 0
+  · rw [(vw_eps_nonpos cs eps h).1]; exact List.Sublist.refl _
+  · rw [vis_eq cs eps h]
+    have := (visIdx_sublist cs eps).map (coordAt cs)
+    rwa [range_map_coordAt] at this
+
+/-- the kept positions start with `0` and end with `n - 1` (whichever minimal entries the
+queue pops first: only "popped entries were pushed" is used about the heap) -/
+private theorem visIdx_ends (cs : List Pt) (eps : Rat) (hn : 1 ≤ cs.length) :
+    (visvalingamIndices cs eps).head? = some 0 ∧
+    (visvalingamIndices cs eps).getLast? = some (cs.length - 1) := by
+  unfold visvalingamIndices
+  split
+  · obtain ⟨m, hm⟩ : ∃ m, cs.length = m + 1 := ⟨cs.length - 1, by omega⟩
+    rw [hm]
+    constructor
+    · rw [List.range_succ_eq_map]; rfl
+    · rw [List.range_succ]; simp
+  · rename_i h3
+    have hinv := vwLoop_inv cs eps cs.length (vwFuel cs.length) adjInit (heapFrom (initScores cs))
+      (adjInit_inv _ (by omega)) (heapFrom_allP (initScores_allP cs))
+    obtain ⟨e0, e1⟩ := ainv_ends_live hn hinv
+    exact ⟨filter_range_head _ _ hn e0, filter_range_last _ _ hn e1⟩
+
+/-- [T] `simplify_vw` keeps the first and the last vertex (so a closed ring stays closed). -/
+theorem vw_first_last (cs : List Pt) (eps : Rat) :
+    (visvalingam cs eps).head? = cs.head? ∧ (visvalingam cs eps).getLast? = cs.getLast? := by
+  by_cases h : eps ≤ 0
+  · rw [(vw_eps_nonpos cs eps h).1]; exact ⟨rfl, rfl⟩
+  · rw [vis_eq cs eps h]
+    cases hcs : cs with
+    | nil => simp [visvalingamIndices]
+    | cons c0 t =>
+      have hn : 1 ≤ cs.length := by rw [hcs]; simp
+      obtain ⟨e0, e1⟩ := visIdx_ends cs eps hn
+      rw [← hcs]
+      constructor
+      · rw [List.head?_map, e0]
+        simp [coordAt, hcs]
+      · rw [List.getLast?_map, e1]
+        simp only [Option.map_some, coordAt]
+        rw [List.getLast?_eq_getElem?]
+        have : cs.length - 1 < cs.length := by omega
+        simp [List.getElem?_eq_getElem this]
+
+/-- [T] Polygon rings under `simplify_vw` stay closed (`Polygon::new` adds nothing). -/
+theorem vw_ring_closed (r : List Pt) (eps : Rat) (hc : SM.isClosed r = true) :
+    SM.close (visvalingam r eps) = visvalingam r eps := by
+  have ⟨h1, h2⟩ := vw_first_last r eps
+  have : SM.isClosed (visvalingam r eps) = true := by
+    simp only [SM.isClosed, decide_eq_true_eq] at hc ⊢
+    rw [h1, h2, hc]
+  simp [SM.close, this]
+
+/-- [T] witness of the defect repaired by the second `fix:` commit: the pinned
+`simplify_vw_idx(0)` drops the collinear middle vertex while `simplify_vw(0)` keeps it; the
+fixed index variant keeps it too. -/
+theorem vw_idx_pinned_witness :
+    simplifyVwIdxPinned [⟨0, 0⟩, ⟨1, 0⟩, ⟨2, 0⟩] 0 = [0, 2] ∧
+    simplifyVwIdx [⟨0, 0⟩, ⟨1, 0⟩, ⟨2, 0⟩] 0 = [0, 1, 2] ∧
+    visvalingam [⟨0, 0⟩, ⟨1, 0⟩, ⟨2, 0⟩] 0 = [⟨0, 0⟩, ⟨1, 0⟩, ⟨2, 0⟩] := by
+  refine ⟨by decide +kernel, by decide +kernel, by decide +kernel⟩
+
+/-! ### topology-preserving Visvalingam-Whyatt -/
+
+private theorem filterMap_keep_sublist (l : List (Pt × Nat)) (p : Nat → Bool) :
+    (l.filterMap (fun x => if p x.2 then some x.1 else none)).Sublist (l.map (·.1)) := by
+  induction l with
+  | nil => exact List.Sublist.refl _
+  | cons x t ih =>
+    by_cases h : p x.2 = true
+    · simp only [List.filterMap_cons, h, if_true, List.map_cons]
+      exact List.Sublist.cons_cons _ ih
+    · simp only [List.filterMap_cons, h, List.map_cons]
+      exact List.Sublist.cons _ ih
+
+/-- [T] `simplify_vw_preserve`: when the ring loop returns (no `assert!` fires), its output is a
+subsequence of the input that keeps the first and the last vertex; `ε ≤ 0` and inputs with
+fewer than three coordinates come back unchanged. Holds for every `INITIAL_MIN`, `MIN_POINTS`
+and every content of the shared segment tree. -/
+theorem vwp_sublist_first_last (imin mpts : Nat) (cs : List Pt) (eps : Rat) (tree : List Seg)
+    (out : List Pt) (tree' : List Seg)
+    (h : visvalingamPreserve imin mpts cs eps tree = some (out, tree')) :
+    out.Sublist cs ∧ out.head? = cs.head? ∧ out.getLast? = cs.getLast? ∧
+    ((cs.length < 3 ∨ eps ≤ 0) → out = cs) := by
+  unfold visvalingamPreserve at h
+  split at h
+  · rename_i hc
+    simp only [Option.some.injEq, Prod.mk.injEq] at h
+    rw [← h.1]
+    exact ⟨List.Sublist.refl _, rfl, rfl, fun _ => rfl⟩
+  · rename_i hc
+    split at h
+    · exact absurd h (by simp)
+    · rename_i adj tr hloop
+      simp only [Option.some.injEq, Prod.mk.injEq] at h
+      have hn3 : 3 ≤ cs.length := by omega
+      have hinv := vwpLoop_inv cs eps cs.length imin mpts _ _ _ _ _ adj tr
+        (adjInit_inv _ hn3) (heapFrom_allP (initScores_allP cs)) hloop
+      obtain ⟨e0, e1⟩ := ainv_ends_live (by omega) hinv
+      rw [← h.1]
+      refine ⟨?_, ?_, ?_, fun hh => absurd hh hc⟩
+      · have h2 := filterMap_keep_sublist cs.zipIdx (fun i => adj i != (0, 0))
+        have e : List.map (fun p : Pt × Nat => p.1) cs.zipIdx = cs := List.zipIdx_map_fst 0 cs
+        rw [e] at h2
+        exact h2
+      · cases hcs : cs with
+        | nil => rw [hcs] at hn3; simp at hn3
+        | cons c0 t =>
+          have e0' : adj 0 ≠ (0, 0) := by simpa using e0
+          simp [List.zipIdx_cons, List.filterMap_cons, e0']
+      · obtain ⟨pre, lst, hcs⟩ : ∃ pre lst, cs = pre ++ [lst] := by
+          have hne : cs ≠ [] := by intro e; rw [e] at hn3; simp at hn3
+          exact ⟨cs.dropLast, cs.getLast hne, (List.dropLast_concat_getLast hne).symm⟩
+        have hlen : cs.length - 1 = pre.length := by rw [hcs]; simp
+        rw [hlen] at e1
+        have e1' : adj pre.length ≠ (0, 0) := by simpa using e1
+        rw [hcs, List.zipIdx_append, List.filterMap_append]
+        simp [List.zipIdx_cons, e1']
 
 end Geo.Proofs.C09
